@@ -18,7 +18,7 @@ pub const CONFIGS: &[&str] = &["builtin", "symbolic", "words", "postfix-words"];
 /// extra operators registered per configuration: (name, kind)
 pub fn config_ops(cfg: &str) -> Vec<(&'static str, &'static str)> {
     match cfg {
-        "symbolic" => vec![("+++", "prefix"), ("**=", "infix"), ("**", "infix"), ("<=>", "infix"), ("=~", "infix"), ("!!", "postfix"), ("?:", "infix"), (":=", "infix"), ("??", "postfix"), ("?.", "infix"), ("+.", "postfix"), ("^2", "postfix"), ("/i", "infix"), ("\u{4e0d}\u{5305}\u{542b}\u{4e8e}", "infix")],
+        "symbolic" => vec![("+++", "prefix"), ("<->", "infix"), ("**=", "infix"), ("**", "infix"), ("<=>", "infix"), ("=~", "infix"), ("!!", "postfix"), ("?:", "infix"), (":=", "infix"), ("??", "postfix"), ("?.", "infix"), ("+.", "postfix"), ("^2", "postfix"), ("/i", "infix"), ("\u{4e0d}\u{5305}\u{542b}\u{4e8e}", "infix")],
         "words" => vec![("hi", "infix"), ("is_a", "infix"), ("~=", "infix"), ("is-not", "infix"), ("not-in", "infix"), ("neg", "prefix"), ("§", "postfix"), ("startsWithAnyCaseInsensitive_v2", "infix"), ("gr\u{f6}\u{df}er", "infix")],
         // word operators that exist as postfix operators only (the longest operator of all is one of them)
         "postfix-words" => vec![("isPositiveNumber", "postfix"), ("pct", "postfix")],
